@@ -69,8 +69,19 @@ def repertoire(enc):
     return r
 
 
-def text(rng, enc, n, style=None):
+MULTIBYTE = 'éÖñ€中𝄞'
+
+
+def text(rng, enc, n, style=None, multibyte=False):
     """n characters encodable in enc; biased towards digits, space, punctuation that matters to parsers, 0x40/0x00 images."""
+    if multibyte and enc in ('utf_8', 'utf8', 'utf-8') and n >= 1:
+        # variable-length text under a multi-byte codec: mix in characters of 2, 3 and 4 bytes (n counts BYTES here)
+        out = ''
+        while len(out.encode(enc)) < n:
+            room = n - len(out.encode(enc))
+            cands = [c for c in MULTIBYTE if len(c.encode(enc)) <= room]
+            out += rng.choice(cands) if cands and rng.random() < 0.4 else rng.choice('ABCabc019 -')
+        return out
     rep = repertoire(enc)
     style = style or rng.choice(['mixed', 'mixed', 'digits', 'alnum', 'any', 'spaces', 'hostile'])
     if style == 'digits':
@@ -92,7 +103,7 @@ def text(rng, enc, n, style=None):
     elif style == 'any':
         pool = rep
     else:
-        pool = 'ABCDEFGHIJKLMNOPQRSTUVWXYZabcdefghijklmnopqrstuvwxyz0123456789      -+_\\,"/.:' + rep[:0]
+        pool = 'ABCDEFGHIJKLMNOPQRSTUVWXYZabcdefghijklmnopqrstuvwxyz0123456789      -+_\\,"/.:[]!^|' + rep[:0]
     pool = ''.join(c for c in pool if c in rep) or '0123456789'
     return ''.join(rng.choice(pool) for _ in range(n))
 
@@ -139,7 +150,7 @@ def gen_value(rng, c, enc, length=None, pan=False):
     w = {'FIXED': 0, 'LLVAR': 2, 'LLLVAR': 3}[ftype]
     width = c.get('field_length', 0) or 0
     if proc == 'ICC':
-        return gen_icc(rng, (10 ** w - 1) if w else width, length)
+        return gen_icc(rng, (10 ** w - 1) if w else width, length, enc)
     if ptype in ('int', 'long'):
         digits = width if not w else rng.randint(1, min(18, 10 ** w - 1))
         if length is not None and w:
@@ -172,6 +183,8 @@ def gen_value(rng, c, enc, length=None, pan=False):
     if not w:
         return text(rng, enc, width)
     n = length if length is not None else var_len(rng, w)
+    if proc is None and enc in ('utf_8', 'utf8', 'utf-8'):
+        return text(rng, enc, n, multibyte=True)
     if proc == 'DE43' and rng.random() < 0.7 and '\\' in repertoire(enc):
         return gen_de43(rng, enc, n if length is not None else None)
     if proc == 'PDS':
@@ -214,8 +227,43 @@ def gen_pds_text(rng, enc, n):
     return out if len(out) == n else None
 
 
-def gen_icc(rng, maxlen, length=None):
+def hexlike_bytes(enc):
+    """Byte values that decode, under enc, to characters a text-minded parser could take for hex digits."""
+    out = []
+    for b in range(1, 256):
+        try:
+            ch = bytes([b]).decode(enc)
+        except UnicodeError:
+            continue
+        if ch in '0123456789abcdefABCDEF' and b not in (0x5f, 0x9f):
+            out.append(b)
+    return out
+
+
+def gen_icc_hexlike(rng, maxlen, enc):
+    """
+    Binary TLV data every byte of which (tags, lengths, values) happens to be a hex-digit character in the message codec,
+    even total length: still binary, still untouched by the codec - but it LOOKS like hex text.
+    """
+    pool = hexlike_bytes(enc)
+    lens = [b for b in pool if b % 2 == 0 and b + 2 <= maxlen]
+    if not pool or not lens:
+        return None
+    out = bytearray()
+    for _ in range(rng.randint(1, 3)):
+        n = rng.choice(lens)
+        if len(out) + 2 + n > maxlen:
+            break
+        out += bytes([rng.choice(pool), n]) + bytes(rng.choice(pool) for _ in range(n))
+    return bytes(out) or None
+
+
+def gen_icc(rng, maxlen, length=None, enc=None):
     """Well-formed 1-byte-length TLV sequence with 1-byte tags (not 00, 5F, 9F) or 2-byte tags 5Fxx / 9Fxx."""
+    if length is None and enc and rng.random() < 0.12:
+        v = gen_icc_hexlike(rng, maxlen, enc)
+        if v:
+            return v
     target = length if length is not None else rng.choice([rng.randint(2, 60), rng.randint(2, min(maxlen, 255)),
                                                            rng.randint(2, maxlen)])
     target = max(2, min(target, maxlen))
